@@ -6,7 +6,7 @@ from typing import Dict, List, Optional
 
 from ..core import Ctx
 from ..model import dotted, kwarg, norm, walk_no_nested
-from .common import assigned_value, bool_equiv, conditions_at, enclosing, expand_locals, pargs, resolve_local
+from .common import assigned_value, bool_equiv, check_annotator_key, conditions_at, enclosing, expand_locals, pargs, resolve_local
 
 ROLES = ("annotator", "label", "start", "end")
 
@@ -43,6 +43,7 @@ def run(ctx: Ctx):
     ctx.assumptions += ["csv module quoting round-trips any field when the file is opened with newline=''"]
     M = ctx.model
     # ---------------- writer
+    check_annotator_key(ctx, "R-C18-3")       # every reader inserts through add(): the annotator text of the file is the annotator of the unit
     w = ctx.fn("Continuum.to_csv", "R-C18-1")
     ws = w.self_name
     wcalls = [c for c in walk_no_nested(w.node) if isinstance(c, ast.Call) and norm(c.func) == "csv.writer"]
